@@ -132,7 +132,7 @@ type executor struct {
 	cat     *Catalog
 	seed    int64
 	scratch string
-	legacy  bool // the case in progress feeds the engines legacy ("") compression metadata
+	legacy  bool         // the case in progress feeds the engines legacy ("") compression metadata
 	shared  atomic.Int64 // returned rows that changed when other returned values were appended to
 }
 
